@@ -87,7 +87,7 @@ def classification(repo, res, a):
     # decided on paths (independent of how the branch is laid out): every path of the n-ary region on which the ufunc
     # is not np.clip ends in RuntimeError; on the clip paths every unit-carrying input is converted into the first
     # input's unit inside the loop over the inputs
-    clip_names = [n_.id for n_ in ast.walk(ast.Module(body=a.nary, type_ignores=[])) if isinstance(n_, ast.Name) and a.mod.qual(n_) == "numpy.clip"]
+    clip_names = [norm(n_) for n_ in ast.walk(ast.Module(body=a.nary, type_ignores=[])) if isinstance(n_, (ast.Name, ast.Attribute)) and a.mod.qual(n_) == "numpy.clip"]
     ok = bool(clip_names)
     n_other = 0
     if ok:
@@ -438,4 +438,5 @@ MUTANTS = [
     Mutant("entry-without-identity-shortcut", ARR, "unyt_array.__array_ufunc__", "if u0 is not u1 and u0 != u1:", "if u0 != u1:", (), benign=True),
     Mutant("coerce-list-bare-elements-match", ARR, "_coerce_iterable_units", 'ff != getattr(_, "units", NULL_UNIT)', 'ff != getattr(_, "units", ff)', ("C01-R8",)),
     Mutant("angles-count-as-dimensionless", UO, "Unit.is_dimensionless", "return self.dimensions is sympy_one", "return self.dimensions is sympy_one or self.dimensions is angle", ("C01-R2",)),
+    Mutant("table-row-dimension", "unyt/_unit_lookup_table.py", None, '("smoot", (1.7018, dimensions.length,', '("smoot", (1.7018, dimensions.time,', ("C01-R9",)),
 ]
